@@ -171,6 +171,62 @@ def build_sim_unit(chk):
     return chk.write("c15_sim_unit.c", text + simunit.HARNESS + C15_HARNESS)
 
 
+
+STR_PRELUDE = r"""
+/* GENERATED on every run: NUL-terminated name codec of the debug tables (hexasm.hpp writer statement, hexsim.hpp reader loop) */
+#include <stddef.h>
+#include <stdint.h>
+#define STR_MAX 40
+#define NAME_MAX 24
+size_t nondet_size(void); char nondet_char(void);
+static char name_c_str[NAME_MAX + 1]; static size_t name_length;     /* std::string name: c_str()[length()] == 0 (library guarantee) */
+static const char *wr_ptr; static size_t wr_n, wr_at, out_pos; static int wr_calls;   /* the one ostream::write of this step */
+static char file_other;                                                /* any byte of the file outside that write */
+static size_t file_pos; static size_t str_nul_at; static size_t str_k;
+static char s_buf[STR_MAX]; static size_t s_len;
+static int pushes; static size_t pushed_len; static char pushed_at_k;
+#define OUT_WRITE(p, n) do { wr_ptr = (p); wr_n = (n); wr_at = out_pos; out_pos += (n); wr_calls++; } while (0)
+#define FILE_BYTE(pos) (((pos) >= wr_at && (pos) - wr_at < wr_n && (pos) - wr_at <= NAME_MAX) ? wr_ptr[(pos) - wr_at] : file_other)
+static int FILE_GET(void) { char b = FILE_BYTE(file_pos); file_pos++; return (unsigned char)b; }   /* istream::get(): the byte as unsigned char */
+#define STR_PUSH() do { pushes++; pushed_len = s_len; if (str_k < s_len) pushed_at_k = s_buf[str_k]; } while (0)
+"""
+
+STR_HARNESS_HEAD = r"""
+void h_str_codec(void) {
+  name_length = nondet_size(); __CPROVER_assume(name_length <= NAME_MAX);
+  for_each_name_byte
+  __CPROVER_assume(name_c_str[name_length] == 0);
+  out_pos = nondet_size(); __CPROVER_assume(out_pos < 1000000);
+  size_t p0 = out_pos; wr_calls = 0; pushes = 0; str_k = nondet_size(); file_other = nondet_char();
+  str_write_stmt();                                   /* the writer's statement for this name */
+  __CPROVER_assert(wr_calls == 1 && wr_ptr == name_c_str && wr_n == name_length + 1, "C15 names: the writer emits the name and its terminator");
+  file_pos = p0; str_nul_at = p0 + name_length;       /* the reader is positioned where the writer started */
+  str_read_body();                                    /* one iteration of the reader's string loop */
+  __CPROVER_assert(pushes == 1, "C15 names: one string pushed per name read");
+  __CPROVER_assert(pushed_len == name_length, "C15 names: the name read back has the length written");
+  __CPROVER_assert(!(str_k < name_length) || pushed_at_k == name_c_str[str_k], "C15 names: the name read back has the bytes written");
+  __CPROVER_assert(file_pos == out_pos, "C15 names: the reader consumes exactly the bytes the writer produced (the next name starts where the writer put it)");
+#ifdef CANARY
+  __CPROVER_assert(0, "canary: harness end reachable");
+#endif
+#ifdef COVERGOAL
+  __CPROVER_assert(!(name_length == NAME_MAX && str_k == NAME_MAX - 1), "covergoal: a name of maximal modelled length");
+  __CPROVER_assert(!(name_length == 0), "covergoal: the empty name");
+#endif
+}
+"""
+
+
+def build_str_unit(chk):
+    each = "".join("  if (%d < name_length) __CPROVER_assume(name_c_str[%d] != 0);\n" % (i, i) for i in range(24))
+    text = STR_PRELUDE + simx.string_codec(chk.manifest) + STR_HARNESS_HEAD.replace("  for_each_name_byte\n", each)
+    path = chk.write("c15_str_unit.c", text)
+    rc, o, e, _ = hv.run(["goto-cc", "-DHEX_CBMC=1", "--function", "h_str_codec", path, "-o", os.path.join(chk.out, "c15_str_probe.gb")], timeout=120)
+    if rc != 0:
+        raise hv.ExtractionError("name codec: extracted text is not C: " + (e or o)[-300:].replace("\n", " "))
+    return path
+
+
 def main(chk, replay_file):
     tier = chk.tier
     sim = build_sim_unit(chk)
@@ -202,6 +258,21 @@ def main(chk, replay_file):
         J("trace.tuple.canary", sim, "h_trace_tuple", defines=["TRACING_INIT=true", "CANARY"], replace=["lookupSymbol"], kind="canary", checks=[]),
         J("lookupSymbol.last.canary", sim, "h_lookup_last", replace=["lookupSymbol"], defines=["CANARY"], kind="canary", checks=[]),
     ]
+    try:
+        su = build_str_unit(chk)
+        jobs += [
+            J("names.codec", su, "h_str_codec", loop_contracts=True, object_bits=12, timeout=300,
+              functions=["emitDebugInfo name write", "Processor::load string loop body"],
+              note="writer statement + reader loop (dfcc loop contract) on one name of symbolic content and length <= 24: the reader returns the bytes written and stops where the writer stopped"),
+            J("names.codec.canary", su, "h_str_codec", loop_contracts=True, object_bits=12, defines=["CANARY"], kind="canary", checks=[], timeout=300),
+            J("names.codec.cover", su, "h_str_codec", loop_contracts=True, object_bits=12, defines=["COVERGOAL"], kind="cover", cover_by_assert=True, checks=[], timeout=300),
+        ]
+        chk.functions += ["hexsim::Processor::load (string loop body)", "hexasm::CodeGen::emitDebugInfo (name write)"]
+        chk.assumptions[1] = chk.assumptions[1].replace(
+            "string bytes are dropped (names are ids; the NUL-terminated encoding/decoding of the names themselves is only exercised by the native stage)",
+            "in the table jobs names are ids; the NUL-terminated encoding of one name is under contract separately (names.codec: the reader loop returns exactly the bytes the writer statement produced and consumes exactly that many; names of at most 24 bytes without an embedded NUL -- identifiers never contain one; std::string::c_str()[length()] == 0 is the library guarantee)")
+    except hv.ExtractionError as ex:
+        chk.warnings.append("name codec not in the recognised shape, names.codec skipped (names stay ids; the native stage still reads real tables): " + str(ex))
     chk.jobs = jobs
     hv.run_jobs(jobs, chk.out)
     native_stage(chk)
